@@ -22,7 +22,11 @@
     nothing after them runs; `e?` evaluates `e` and leaves the function with
     `None` when it is `None`;
   * `x = e` evaluates `e`, then stores; `x op= e` reads `x`, then evaluates
-    `e`, then stores `old x op e`;
+    `e`, then stores `old x op e`; the same with a field `x.f` as the target
+    (the new field value goes into the record `x` holds after `e` ran);
+  * a record literal evaluates its field expressions in the order in which the
+    literal WRITES them — which need not be the order of the record type — and
+    each value becomes the field it was written for;
   * a script-function call evaluates the arguments left to right, then runs
     the callee to its end or to its first `return`.
 
